@@ -12,7 +12,7 @@ CONSTANTS
   SurfRefWindow = 180
   NoGuard = FALSE
   RxRef = 600
-  DTs = {0, 1, 9, 10, 16, 17, 179, 180, 181, 472, 480, 1000, 1888, 1920}
+  DTs = {0, 1, 9, 10, 17, 179, 180, 181, 472, 480, 1000, 1888, 1920}
   Dirs <- Dirs3
   Aircraft = {1}
   StartSet = {64, 500}
